@@ -106,7 +106,7 @@ var lifePreludeOutcome = map[int]state.IdentityState{
 	0: state.Verified, 1: state.Suspended, 2: state.Human, 3: state.Newbie, 4: state.Verified, 5: state.Newbie, 6: state.Zombie,
 	7: state.Verified, 9: state.Human, 10: state.Verified, 11: state.Human, 12: state.Human, 13: state.Verified, 14: state.Human,
 }
-var lifePerfect = map[int]bool{0: true, 2: true, 4: true, 7: true, 9: true, 11: true, 12: true, 14: true}
+var lifePerfect = map[int]bool{0: true, 1: true, 2: true, 3: true, 4: true, 5: true, 6: true, 7: true, 9: true, 11: true, 12: true, 14: true}
 
 func (h *hist) lifeMust(ok bool, what string, a ...interface{}) {
 	if !ok {
